@@ -2,7 +2,10 @@ module verifharness
 
 go 1.25.0
 
-require github.com/gotd/td v0.0.0
+require (
+	github.com/gotd/neo v0.1.5
+	github.com/gotd/td v0.0.0
+)
 
 require (
 	github.com/andybalholm/brotli v1.2.1 // indirect
@@ -14,7 +17,6 @@ require (
 	github.com/go-faster/xor v1.0.0 // indirect
 	github.com/gotd/ige v0.3.0 // indirect
 	github.com/gotd/log v0.1.0 // indirect
-	github.com/gotd/neo v0.1.5 // indirect
 	github.com/klauspost/compress v1.19.1 // indirect
 	github.com/refraction-networking/utls v1.8.2 // indirect
 	github.com/segmentio/asm v1.2.1 // indirect
